@@ -68,6 +68,7 @@ PLANS = {
     'C05': dict(
         specs=KERNEL_SPECS + ['spec.arith'], contracts=KERNEL_CONTRACTS + ['contracts.arith'],
         targets=C05_TARGETS, level='proof', uf_mul=True,
+        bounded=['bounded.c05_arith.run'],
         assumptions=COMMON_ASSUMPTIONS + [
             "standard meaning of ground arithmetic terms = spec/arith.py `den` (truncated minus at nat, x/0 = 0, "
             "exact rationals), types read from the constants' own annotations",
